@@ -17,7 +17,7 @@ static std::string cpc_readout(const cpc_sketch& s) {
   o += "lgk=" + std::to_string(s.get_lg_k()) + " empty=" + std::to_string(s.is_empty()) + " c=" + std::to_string(s.get_num_coupons()) +
        " est=" + num(s.get_estimate());
   for (unsigned kappa = 1; kappa <= 3; ++kappa) o += " b" + std::to_string(kappa) + "=" + num(s.get_lower_bound(kappa)) + "/" + num(s.get_upper_bound(kappa));
-  o += " valid=" + std::to_string(s.validate());
+  if (s.get_lg_k() <= 12) o += " valid=" + std::to_string(s.validate());   // validate() builds a k x 64 bit matrix: too costly per fault for big k
   o += " str=" + std::to_string(shash(s.to_string()));
   o += " ser=" + hexv(s.serialize());
   std::ostringstream os; s.serialize(os); o += " sers=" + std::to_string(os.str().size());
@@ -32,7 +32,7 @@ static void cpc_use(cpc_sketch& s) {
   cpc_union u(10);
   u.update(s); u.update(fresh);
   cpc_sketch r = u.get_result();
-  (void)r.get_estimate(); (void)r.serialize(); (void)r.validate();
+  (void)r.get_estimate(); (void)r.serialize(); if (r.get_lg_k() <= 12) (void)r.validate();
 }
 
 static std::string cpc_bytes(const void* p, size_t n, bool use) {
@@ -61,6 +61,16 @@ static cpc_sketch cpc_state(Rng& r, bool T, int flavor, uint8_t& lg_k_out) {
     if (static_cast<int>(s.determine_flavor()) == flavor) { lg_k_out = lg_k; return s; }
   }
   throw std::logic_error("c11_cpc: could not reach the requested flavor");
+}
+
+// large nominal configuration (lg_k 20..24), tiny content (sparse flavor): the count fields of the image are then bounded
+// only by the large configured maximum
+static Bytes cpc_big_image(Rng& r, bool) {
+  cpc_sketch s(static_cast<uint8_t>(r.range(20, 24)));
+  const uint64_t n = 1 + r.below(20), base = r.next();
+  for (uint64_t i = 0; i < n; ++i) s.update(static_cast<uint64_t>(base + i * UINT64_C(0x9e3779b97f4a7c15)));
+  auto v = s.serialize();
+  return Bytes(v.begin(), v.end());
 }
 
 static Bytes cpc_image(Rng& r, bool T, int flavor, bool merged) {
@@ -95,6 +105,8 @@ std::vector<Target> targets() {
     t.push_back({"cpc", kind, "bytes", b, bytes_path(cpc_bytes)});
     t.push_back({"cpc", kind, "stream", b, stream_path(cpc_stream)});
   }
+  t.push_back({"cpc", "bigcfg_sparse", "bytes", cpc_big_image, bytes_path(cpc_bytes)});
+  t.push_back({"cpc", "bigcfg_sparse", "stream", cpc_big_image, stream_path(cpc_stream)});
   return t;
 }
 
